@@ -402,7 +402,7 @@ func runCacheInBubble(sc *SrvScenario, known map[string]bool) (st cacheStats, er
 		addr := &net.TCPAddr{IP: net.IPv4(127, 0, 0, 1), Port: 1000 + client}
 		ctx, cancel := context.WithCancel(peer.NewContext(context.Background(), &peer.Peer{Addr: addr}))
 		cs := &capStream{ctx: ctx, cancel: cancel, done: make(chan error, 1),
-			req: &pb.SubscribeRequest{Request: &pb.SubscribeRequest_Subscribe{Subscribe: l.proto(mode, updatesOnly)}}}
+			req: l.request(mode, updatesOnly)}
 		go func() { cs.done <- srv.Subscribe(cs) }()
 		synctest.Wait()
 		return &cacheSub{stream: cs, queries: refQueries(l), statKey: fmt.Sprintf("%s:%p", addr, cs.req)}
@@ -660,6 +660,9 @@ func (r atomResult) labels() []string {
 			"updates-only", "client-resubscribed", "client-with-2plus-compatible-registrations", "empty-index-string":
 			set[l] = true
 		}
+	}
+	for _, l := range r.srv.dress.labels() {
+		set["atomic-part-"+l] = true
 	}
 	var out []string
 	for l := range set {
